@@ -150,6 +150,15 @@ theorem bm_empty_iff (p : ℕ) (hp : p.Prime) (hodd : p % 2 = 1) (hlt : p < 2 ^ 
   rw [e]
   exact core_empty_iff ok seq hr
 
+/-- the same for `berlekamp_massey_big::<U256, U512>` -/
+theorem bm_big_empty_iff (p : ℕ) (hp : p.Prime) (hlt : p < 2 ^ 244) (seq : List ℕ)
+    (hr : ∀ x ∈ seq, x < p) :
+    bmBig p seq = some [] ↔
+      seq ≠ [] ∧ ((∀ i, seq.getD i 0 = 0) ∨
+        ∃ k, 1 ≤ k ∧ seq.getD k 0 ≠ 0 ∧ ∀ i, i ≠ k → seq.getD i 0 = 0) := by
+  have := Fact.mk hp
+  exact core_empty_iff (bigOps_ok p hlt) seq hr
+
 /-- Completeness / no panic on the inputs Wiedemann produces: a sequence with two non-zero terms
 that has a connection polynomial on the window gets one (no panic, non-empty answer; by
 `bm_sound` the answer is a connection polynomial). -/
